@@ -54,10 +54,12 @@ struct State {
     arg: i32,
 }
 
-const NOTHROW: [&str; 24] = [
+// `CheckReturn` raises its TypeError through `Context::handle_throw`, which pops the frame before it looks for a handler (the error belongs to
+// [[Construct]] of the caller, not to the body): no handler of the block itself can receive it.
+const NOTHROW: [&str; 25] = [
     "Jump", "JumpIfTrue", "JumpIfFalse", "JumpIfNotUndefined", "JumpIfNullOrUndefined", "JumpTable", "Move", "PushFromRegister", "Pop", "PopIntoRegister",
     "StoreZero", "StoreOne", "StoreTrue", "StoreFalse", "StoreUndefined", "StoreNull", "StoreInt8", "StoreInt16", "StoreInt32", "PushScope", "PopEnvironment",
-    "SetAccumulator", "SetRegisterFromAccumulator", "Return",
+    "SetAccumulator", "SetRegisterFromAccumulator", "Return", "CheckReturn",
 ];
 const CALL_LIKE: [&str; 9] = ["Call", "CallSpread", "CallEval", "CallEvalSpread", "New", "NewSpread", "SuperCall", "SuperCallSpread", "SuperCallDerived"];
 
